@@ -490,10 +490,22 @@ def _acyclic(nodes, di):
     return True
 
 
-def native_corpus(op, n):
+def order_respecting_graphs(n):
+    """Every mixed graph on n nodes whose directed edges respect the node order (acyclic), every set of bidirected
+    edges: 4^(n(n-1)/2) graphs - the 4-node layer of the native corpus (the full 4-node family has 2^18 members)."""
+    U = universe(n)
+    pairs = list(itt.combinations(U, 2))
+    for dm in range(1 << len(pairs)):
+        di = [p for i, p in enumerate(pairs) if dm >> i & 1]
+        for bm in range(1 << len(pairs)):
+            bi = [p for i, p in enumerate(pairs) if bm >> i & 1]
+            yield U, di, bi
+
+
+def native_corpus(op, n, graphs=None):
     """Every mixed graph on n nodes x every S: real code natively against the concrete definitions."""
     bad, cnt = [], 0
-    for U, di, bi in all_small_graphs(n):
+    for U, di, bi in (graphs if graphs is not None else all_small_graphs(n)):
         for k in range(len(U) + 1):
             for S in itt.combinations(U, k):
                 if op in ("districts", "disorient", "moralize", "moral_graph", "is_connected") and S:
@@ -535,6 +547,9 @@ def work(job):
         out["status"] = "unsupported"
         out["why"] = str(e) if isinstance(e, Unsupported) else f"{type(e).__name__}: {e}"
         out["validated"], out["native_bad"] = native_corpus(op, max(validate_n, 3))
+        c4, b4 = native_corpus(op, 4, graphs=order_respecting_graphs(4))
+        out["validated"] += c4
+        out["native_bad"] = (out["native_bad"] + b4)[:3]
         return out
     out["encode_s"] = time.time() - t0
     # vacuity twin: the assumptions are satisfiable with a non-trivial graph
@@ -549,6 +564,12 @@ def work(job):
     # here: every graph on validate_n nodes x every S natively against the concrete spec (finds violations the
     # encoding could miss and keeps detection alive if a construct becomes unsupported)
     cnt, bad = native_corpus(op, validate_n) if validate_n else (0, [])
+    if validate_n:
+        # a 4-node layer (acyclic, order-respecting directed edges; all bidirected edge sets): needed for defects that
+        # no 3-node graph shows (a path of length three, two sources of which one reaches a target, ...)
+        c4, b4 = native_corpus(op, 4, graphs=order_respecting_graphs(4))
+        cnt += c4
+        bad = (bad + b4)[:3]
     out["validated"] = cnt
     out["native_bad"] = bad
     return out
@@ -570,7 +591,7 @@ def run() -> int:
     rep.bounds = {"universe_nodes": N, "graphs": f"every mixed graph (any subset of the {N} nodes present, any directed edges incl. cycles, any bidirected edges), every node subset S of the present nodes", "solver_timeout_ms": timeout_ms}
     rep.assumptions = [
         "documented precondition: the vertex argument is a subset of the nodes of the graph",
-        "independence of insertion order is not decided (the relational model has no order); intervene() and topological_sort() are checked only on the native corpus (every graph on 3 nodes), not symbolically; pre() is encoded with an explicit order; get_nodes_in_directed_paths() with disjoint source/target sets",
+        "independence of insertion order is not decided (the relational model has no order); intervene() and topological_sort() are checked only on the native corpus (every graph on 3 nodes and every graph on 4 nodes whose directed edges respect the node order), not symbolically; pre() is encoded with an explicit order; get_nodes_in_directed_paths() with disjoint source/target sets",
         "specification of moralize: the flattened moralised graph joins u, v iff they are adjacent or collider-connected through one district (augmented-graph criterion); moralize itself keeps nodes and directed edges and only adds undirected edges",
     ]
     rep.rule = "one query per operation = all graphs on the universe x all subsets S; states = number of Boolean graph/subset variables of the query; a query is non-trivial when its vacuity twin is sat"
